@@ -21,7 +21,8 @@ PUNCT_DOCS = ["Train, validation and tests dataset splits.", "Alpha, beta and ga
               "The ratio: kept between runs", "First pass; second pass kept", "Upper bound - kept between runs", "The weight (kept between runs)",
               "Maps alpha -> beta weights", "Uses alpha = beta weights", "The 'alpha' weight kept", 'The "beta" weight kept', "Kept between runs,",
               "A value, kept; see (alpha) - beta: gamma", "Ratio of a/b, then c", "Kept as-is, e.g. between runs", "Either alpha, or beta",
-              "One of: alpha, beta", "Kept, then dropped", "(kept) between runs", "Kept; dropped"]
+              "One of: alpha, beta", "Kept, then dropped", "(kept) between runs", "Kept; dropped",
+              "Keep 80% of the rows", "Formatted like %s or %(name)s", "100% kept"]  # per cent signs: argparse %-formats help strings, the interface must not
 LIT_ODD = ["us-east-1", "a.b", "x y", "v1.2", "en-GB", "1st"]
 INTS = [0, 0, 1, 5, -3, 42, 100, 2]
 FLOATS = [0.0, 0.0, 0.5, 1.0, -2.5, 0.001, 3.14]
